@@ -10,7 +10,9 @@ FIRST_TRY = {'C01': True, 'C02': True, 'C03': False, 'C04': True, 'C05': False, 
              'C19': False, 'C20': True,
              'C01b': True, 'C03b': False, 'C04b': True, 'C05b': True, 'C06b': True, 'C07b': True, 'C09b': True, 'C10b': False,
              'C13b': True, 'C16b': False, 'C19b': False, 'C20b': True,
-             'C02b': True, 'C08b': True, 'C11b': False, 'C12b': True, 'C14b': True, 'C15b': True, 'C17b': True, 'C18b': True}
+             'C02b': True, 'C08b': True, 'C11b': False, 'C12b': True, 'C14b': True, 'C15b': True, 'C17b': True, 'C18b': True,
+             'C01c': True, 'C02c': True, 'C03c': True, 'C04c': True, 'C05c': True, 'C06c': False, 'C07c': True, 'C08c': True,
+             'C09c': True, 'C10c': False}
 STRENGTHEN = {
     'C03': 'the C03 simulator tied the configured keep_alive_time to hold/3; it is now an independent configuration dimension {60,1,7,600}',
     'C05': 'histories now also end sessions by version-error NOTIFICATION, bad marker, early UPDATE, manual stop/start and hold expiry',
@@ -22,6 +24,8 @@ STRENGTHEN = {
     'C03b': 'the first KEEPALIVE may now arrive some time after the OPEN (ka_delay in {small, H/3, H/2, 2H/3, H-eps}); before, OPEN and first KEEPALIVE always came at the same instant',
     'C10b': 'the hostile sequence can now be delivered in the 2nd or 3rd session of the same agent (earlier sessions ended by peer close / bad marker / Cease / silence) and NOTIFICATION bodies include (2,1); the change was caught by C02 from the start',
     'C16b': 'OPTIONS was added to the method dimension of the matrix (an automatic empty 200 reply is tolerated, any effect is not)',
+    'C06c': 'the change is in the REST layer (LOCAL_PREF 0 replaced by the iBGP default); C06 got a REST facet (the generated cases requested through POST /send/update on eBGP/iBGP sessions in both AS modes, decoded from the wire, plus a grid session kind x LOCAL_PREF x MED boundary values) and C16 got the same grid and a 2-octet-AS session dimension; both now catch it',
+    'C10c': 'the negotiated hold time became a dimension of the hostile-input cases ({180, 90, 3, 0}); before, every session ran with hold time 180, so a malformed UPDATE re-arming a stopped hold timer was never seen',
     'C11b': 'a corpus of ~30 well-formed UPDATE bodies (one per family / route type, reference-encoded) was added and every octet position is set to each of 60 boundary values (all 256 in the thorough tier), plus Hypothesis 2-4 position mutations; before, only 5 values per position of the unit-test vectors were tried, which never produced an over-long next-hop / prefix length with enough octets behind it',
     'C19b': 'attribute sets that are supersets of one another (set 0 + MED, + COMMUNITIES) were added, so a re-announcement that only drops an attribute occurs',
 }
